@@ -85,6 +85,8 @@ def build(d):
         return CLASSES[d[1]](**{n: build(v) for n, v in d[2]})
     if k == "ddict":
         return P.defaultdict(CLASSES[d[1]], {build(a): build(b) for a, b in d[2]})
+    if k == "raw":
+        return eval(d[1], dict(vars(P)))
     if k == "opaque":
         return P.Opaque(d[1])
     if k == "vec":
@@ -138,6 +140,8 @@ def render(d) -> str:
     if k == "ddict":
         return (f"defaultdict({d[1]}, dict(["
                 + ", ".join(f"({render(a)}, {render(b)})" for a, b in d[2]) + "]))")
+    if k == "raw":
+        return d[1]
     if k == "opaque":
         return f"Opaque({d[1]!r})"
     if k == "vec":
@@ -187,6 +191,8 @@ def natural(d) -> str:
         return f"{d[1]}(" + ", ".join(f"{n}={natural(v)}" for n, v in d[2]) + ")"
     if k == "ddict":
         return f"defaultdict({d[1]}, {{" + ", ".join(f"{natural(a)}: {natural(b)}" for a, b in d[2]) + "})"
+    if k == "raw":
+        return d[1]
     if k == "opaque":
         return f"Opaque({d[1]!r})"
     if k == "vec":
@@ -354,6 +360,16 @@ def hashable_leaves(tier="quick"):
     )
 
 
+# values outside the structural universe, given as the expression that builds them (a leaf for every generator):
+# an IntFlag with bits that have no name, dict subclasses, a defaultdict without content
+EXOTIC = ["IPerm(12)", "IPerm(9)", "IPerm.R | IPerm.W", "IPerm(0)", "OrderedDict({'a': 1, 'b': 2})", "OrderedDict()",
+          "Counter({'a': 2, 'b': 1})", "defaultdict(list)", "OrderedDict({'k': [1, 2]})"]
+
+
+def exotic():
+    return st.sampled_from(EXOTIC).map(lambda e: ["raw", e])
+
+
 def hashables(tier="quick", max_leaves=4):
     def extend(ch):
         return st.one_of(
@@ -393,6 +409,7 @@ def values(tier="quick", max_leaves=None, *, opaque=True):
     leaves = st.one_of(hashable_leaves(tier), hashable_leaves(tier), hs)
     if opaque:
         leaves = st.one_of(leaves, st.integers(0, 6).map(lambda n: ["opaque", n]))
+    leaves = st.one_of(leaves, leaves, leaves, leaves, leaves, leaves, leaves, exotic())
 
     def extend(ch):
         opts = [
